@@ -395,6 +395,59 @@ func genEntries(r *hx.RNG, n int) []*packet.LSPEntry {
 	return es
 }
 
+// genCtor: arguments of a TLV constructor around the 255 byte limit of the value
+func genCtor(r *hx.RNG) string {
+	hexOf := func(n int) string { return hexs(rbytes(r, n)) }
+	switch r.Intn(10) {
+	case 0:
+		n := []int{0, 1, 2, 3, 19, 20}[r.Intn(6)]
+		if n == 0 {
+			return "T area -"
+		}
+		var xs []string
+		for i := 0; i < n; i++ {
+			xs = append(xs, hexOf([]int{0, 1, 3, 13, 12, 100, 254, 255, 256}[r.Intn(9)]))
+		}
+		return "T area " + strings.Join(xs, "|")
+	case 1:
+		return "T host " + hexOf([]int{0, 1, 7, 254, 255, 256, 257, 300}[r.Intn(8)])
+	case 2:
+		return "T proto " + hexOf([]int{0, 1, 2, 255, 256, 258}[r.Intn(6)])
+	case 3:
+		var xs []string
+		for i := []int{0, 1, 2, 63, 64, 65, 128}[r.Intn(7)]; i > 0; i-- {
+			xs = append(xs, fmt.Sprint(ru32(r)))
+		}
+		return "T ipif " + join(xs, "|")
+	case 4:
+		return "T entries " + entriesToken(genEntries(r, []int{0, 1, 14, 15, 16, 17, 32}[r.Intn(7)]))
+	case 5:
+		return fmt.Sprintf("T p2padj %d %d", r.Intn(4), ru32(r))
+	case 6:
+		return fmt.Sprintf("T pad %d", []int{0, 1, 9, 254, 255}[r.Intn(5)])
+	case 7:
+		return fmt.Sprintf("T terid %d", ru32(r))
+	case 8:
+		var xs []string
+		for i := []int{0, 1, 2, 5, 12, 23, 24}[r.Intn(7)]; i > 0; i-- {
+			subs, _ := genSubs(r)
+			if r.Chance(10) {
+				for k := 0; k < 30; k++ {
+					subs = append(subs, packet.NewLinkLocalRemoteIdentifiersSubTLV(ru32(r), ru32(r)))
+				}
+			}
+			xs = append(xs, fmt.Sprintf("%s.%d.0.%s", hexs(srcBytes(rsrc(r))), ru32(r), renderSubs(subs)))
+		}
+		return "T extis " + join(xs, "|")
+	default:
+		var xs []string
+		for i := []int{0, 1, 2, 28, 29, 30, 52}[r.Intn(7)]; i > 0; i-- {
+			xs = append(xs, fmt.Sprintf("%d.%d.%d", ru32(r), []int{0, 1, 8, 9, 24, 31, 32, 33, 63, 64, 200, 255}[r.Intn(12)], ru32(r)))
+		}
+		return "T extip " + join(xs, "|")
+	}
+}
+
 var snpCounts = []int{0, 1, 2, 3, 5, 12, 14, 15, 16, 17, 29, 30, 31, 45, 46, 60, 89, 90, 91, 92, 100, 179, 180, 181, 200}
 var snpMaxLens = []int{-5, 0, 17, 18, 33, 34, 35, 36, 50, 51, 52, 66, 67, 68, 83, 100, 274, 275, 276, 277, 290, 291, 292, 293, 309, 500, 517, 1492, 1497, 1500, 9000}
 
@@ -462,7 +515,7 @@ func generate(r *runner, rng *hx.RNG, n int, tier string) {
 				b = b[:g.Intn(len(b)+1)]
 			}
 			r.do(id, "L "+hexs(b))
-		case c < 88: // encode stream
+		case c < 84: // encode stream
 			kind := kinds[g.Intn(4)]
 			skew := 0
 			if g.Chance(25) {
@@ -474,7 +527,9 @@ func generate(r *runner, rng *hx.RNG, n int, tier string) {
 			}
 			tr.Count("E_" + kind)
 			r.do(id, "E "+renderPkt(p))
-		case c < 92: // LSP length and checksum
+		case c < 90: // TLV constructors
+			r.do(id, genCtor(g))
+		case c < 93: // LSP length and checksum
 			p := genPkt(g, "lsp", 10)
 			r.do(id, "K "+renderBody(p.body))
 		default: // NewCSNPs / NewPSNPs
